@@ -195,7 +195,14 @@ def run(pid, tier, seed):
 
     # --- run implementation + model on corpus and generated cases
     corpus = corpus_cases(pid)
-    rc, out = sh([h_exe, "gen", pid, tier, str(seed), work], timeout=3000)
+    # escalation: when the sources this harness exercises differ from the ones the committed models were written
+    # against, the quick tier generates cases at thorough volume (a source change alone is never a violation)
+    changed, fp = vlib.fingerprint_changed(pid)
+    gen_tier = "thorough" if (changed and pid not in vlib.NO_ESCALATION and not os.environ.get("VERIF_NO_ESCALATION")) else tier
+    if changed:
+        notes.append("source fingerprint of %s differs from tools/fingerprints.json: generators run at %s volume" % (
+            " ".join(vlib.WATCH[pid]), gen_tier))
+    rc, out = sh([h_exe, "gen", pid, gen_tier, str(seed), work], timeout=6000)
     if rc != 0:
         sys.stdout.write(out[-3000:])
         print("ERROR: harness failed")
@@ -289,7 +296,7 @@ def run(pid, tier, seed):
         evaluations=len(cases), distinct_nontrivial=len(distinct), rule=cfg["rule"],
         samples=samples, generator_histogram=dict(hist), implementation_outcomes=dict(outcome),
         model_vs_implementation_differences=len(diffs), corpus_cases=len(corpus),
-        known_findings_hit=list(known_hits.keys()), notes=notes,
+        known_findings_hit=list(known_hits.keys()), notes=notes, source_changed=changed, generator_volume=gen_tier,
         coqchk=(dict(ok=chk["ok"], axioms=chk["axioms"], unsafe=chk["unsafe"]) if chk else "thorough tier only"),
     )
     vlib.write_evidence(pid, tier, seed, coverage,
